@@ -28,6 +28,9 @@ def clf_zoo():
         "PWC": dict(mk=lambda **k: ParzenWindowClassifier(metric_dict={"gamma": 0.7}, **k), freq=True, self_proba=True),
         "PWC-mean": dict(mk=lambda **k: ParzenWindowClassifier(metric_dict={"gamma": "mean"}, **k), freq=True, self_proba=True, c12=False),
         "PWC-default": dict(mk=lambda **k: ParzenWindowClassifier(**k), freq=True, self_proba=True, c12=False),
+        # nearest-neighbour truncation: a query whose nearest neighbour is unlabeled has no frequency mass at all
+        "PWC-1nn": dict(mk=lambda **k: ParzenWindowClassifier(n_neighbors=1, metric_dict={"gamma": 0.7}, **k), freq=True, self_proba=True, c12=False,
+                        only=("C11", "C13")),
         "MMC": dict(mk=lambda **k: MixtureModelClassifier(mixture_model=BayesianGaussianMixture(n_components=2, random_state=0), **k),
                     freq=True, self_proba=True, min_n=2, c12=False),
         "Sk-GaussianNB": dict(mk=lambda **k: SklearnClassifier(GaussianNB(), **k), self_proba=True, partial=True),
@@ -133,7 +136,8 @@ def make_clf_data(case, classes, ml):
     else:
         y = np.array([ml if l < 0 else srt[l] for l in lab], dtype=object if ml is None else None)
     w = (rs.rand(n) + 0.1) if case["weights"] else None
-    Xq = rs.randn(5, 2).round(2)
+    # query batch: five nearby points and one far away (kernel frequencies underflow to exactly 0 there: a zero-mass row next to rows with mass)
+    Xq = np.vstack([rs.randn(5, 2).round(2), [[1.0e3, -1.0e3]]])
     return X, y, lab, w, Xq
 
 
